@@ -17,8 +17,13 @@
 (* TSIG is abstract here (octets and HMAC: Tsig.tla / C11).  Every envelope    *)
 (* has an identity `mid' standing for its MAC (0 = the MAC of the query); a    *)
 (* signature is <<key, mid of the envelope it is chained on, timers-only (0/1),*)
-(* intact (1; 0 once the signed content was altered)>>: exactly what the MAC   *)
-(* of RFC 8945 5.3.1 binds together.                                           *)
+(* mac>>: exactly what the MAC of RFC 8945 5.3.1 binds together.  mac = 1: the *)
+(* full HMAC of the content as received; 0: not that under any reading (the    *)
+(* content was altered after signing, or the MAC field is empty, shorter than  *)
+(* max(10, half the hash) octets, or longer than the hash: RFC 8945 5.2.2.1);  *)
+(* 2: the right HMAC truncated to at least max(10, half) octets -- AMBIG: RFC  *)
+(* 8945 lets local policy accept it, the library implements no truncation; the *)
+(* receiver's status becomes "ambig" and nothing is asserted from there on.    *)
 EXTENDS Bytes
 
 SOA(s)    == <<1, s[1], s[2]>>
@@ -100,7 +105,7 @@ SignAll(envs, keys) ==
   [i \in 1..Len(envs) |-> [envs[i] EXCEPT !.mid = i, !.sig = <<keys[i], i - 1, IF i = 1 THEN 0 ELSE 1, 1>>]]
 
 -----------------------------------------------------------------------------
-(* The receiver.  status: "more" | "done" | "error"                           *)
+(* The receiver.  status: "more" | "done" | "error" | "ambig"                 *)
 
 RInit == [first |-> TRUE, n |-> 0, axfr |-> TRUE, serial |-> <<0, 0>>,
                 macPrev |-> 0, timersOnly |-> FALSE, status |-> "more", delivered |-> <<>>, used |-> 0]
@@ -122,13 +127,15 @@ RRec(mode, q, r, rec) ==
 RECURSIVE RScan(_, _, _, _, _)
 RScan(mode, q, r, recs, i) == IF i > Len(recs) THEN r ELSE RScan(mode, q, RRec(mode, q, r, recs[i]), recs, i + 1)
 
-SigOK(r, e, key) == e.sig = <<key, r.macPrev, IF r.timersOnly THEN 1 ELSE 0, 1>>
+SigOK(r, e, key)    == e.sig = <<key, r.macPrev, IF r.timersOnly THEN 1 ELSE 0, 1>>
+SigAmbig(r, e, key) == e.sig = <<key, r.macPrev, IF r.timersOnly THEN 1 ELSE 0, 2>>
 
 Fail(r) == [r EXCEPT !.status = "error"]
 
 \* one envelope.  tsig: the receiver has a key configured (then EVERY envelope must verify)
 RStep(mode, q, tsig, key, r, e) ==
   IF e.cut THEN Fail(r)                                         \* the connection ended inside the message
+  ELSE IF tsig /\ SigAmbig(r, e, key) THEN [r EXCEPT !.status = "ambig"]
   ELSE IF tsig /\ ~SigOK(r, e, key) THEN Fail(r)
   ELSE IF ~e.id THEN Fail(r)
   ELSE IF e.rcode # 0 THEN Fail(r)                              \* in any envelope
@@ -151,5 +158,6 @@ RRun(mode, q, tsig, key, r, envs, i) ==
 (* connection closed; `used' envelopes were consumed from the connection.     *)
 Observe(mode, q, tsig, key, envs) ==
   LET r == RRun(mode, q, tsig, key, RInit, envs, 1) IN
-  [delivered |-> r.delivered, err |-> r.status = "error", complete |-> r.status = "done", used |-> r.used]
+  [delivered |-> r.delivered, err |-> r.status = "error", complete |-> r.status = "done", ambig |-> r.status = "ambig",
+   used |-> r.used]
 =============================================================================
